@@ -256,6 +256,10 @@ def run(ctx: Ctx) -> None:
         ctx.violation("reused-registry " + sig(c["c"], o), {"case": c["c"], "allowed": c["allowed"], "observed": o,
                                                              "history": "one registry object reused across algorithm families"})
     ctx.notes["reuse_pass_cases"] = nre
+    # B2: every successful call of the repository's own test-suite (recorded by the API tracer) must satisfy the declarative
+    # header rule, evaluated by TLC on the header the call was given (TraceApi.tla, HeaderClause)
+    from .c05 import trace_api
+    trace_api(ctx, "C15")
     ctx.traces = len(cases)
     ctx.exhaustive = thorough
     ctx.notes["abstract_cases_total"] = total
